@@ -561,9 +561,17 @@ def l_sort(R, recv, args, kw, node):
     R.assume(z3.Length(res) == n)
     i, j = z3.Int(fresh_name("i")), z3.Int(fresh_name("j"))
     R.assume(z3.ForAll([i, j], z3.Implies(z3.And(0 <= i, i <= j, j < n), lex_le(R, c.t.elem, res[i], res[j]))))
-    # permutation: same elements (membership both ways); multiplicities not modelled
-    x = z3.Const(fresh_name("x"), c.t.elem.sort())
-    R.assume(z3.ForAll([x], z3.Contains(res, z3.Unit(x)) == z3.Contains(c.z, z3.Unit(x))))
+    et = c.t.elem
+    if et.kind == "tuple" and et.items and et.items[0].kind in ("int", "real"):
+        # implied by the lexicographic fact above; stated separately (cheap for the solver)
+        R.assume(z3.ForAll([i, j], z3.Implies(z3.And(0 <= i, i <= j, j < n), et.get(res[i], 0) <= et.get(res[j], 0))))
+    # permutation witnesses (every new element is an old one and vice versa); the functions are
+    # not asserted to be bijections, so multiplicities are not modelled
+    perm = z3.Function(fresh_name("perm"), z3.IntSort(), z3.IntSort())
+    inv = z3.Function(fresh_name("inv"), z3.IntSort(), z3.IntSort())
+    k = z3.Int(fresh_name("k"))
+    R.assume(z3.ForAll([k], z3.Implies(z3.And(0 <= k, k < n), z3.And(0 <= perm(k), perm(k) < n, res[k] == c.z[perm(k)]))))
+    R.assume(z3.ForAll([k], z3.Implies(z3.And(0 <= k, k < n), z3.And(0 <= inv(k), inv(k) < n, c.z[k] == res[inv(k)]))))
     return mk_none()
 
 
